@@ -69,7 +69,7 @@ func kvN(n int) []ref.KV {
 func c13MapWorkloads() []*model.Content {
 	h := model.Headers[1]
 	var many []model.Op
-	for i := 0; i < 20; i++ {
+	for i := 0; i < 70; i++ { // enough channels for any "sparse chunk" shortcut: 2-3 active out of 70
 		many = append(many, model.Chn(&ref.Channel{ID: uint16(i), Topic: fmt.Sprint("t", i), Metadata: kvN(i % 3)}))
 	}
 	// sparse chunks: only 2 of 20 channels have messages in a chunk
@@ -108,7 +108,7 @@ func c13MapOrder(r *chk.Run) {
 		}
 		res := gow.Write(ws[wi], cfgs[ci], nil, nil)
 		if wi == 2 && res.Bytes != nil {
-			// the 20-channel workload is additionally copied chunk by chunk through the raw-record
+			// the 70-channel workload is additionally copied chunk by chunk through the raw-record
 			// API by a tool that does not register the channels inside the chunks; the copy is what is compared
 			if out, bad := passthroughOpt(res.Bytes, cfgs[ci], false); bad == "" {
 				res.Bytes = append(res.Bytes, out...)
